@@ -405,7 +405,9 @@ fn part_wire(max: u32) -> PartResult {
         }
     }
     // masks with all three parts and partial forms (completion rules on the wire)
-    for m in ["a!*@*", "a!~ua@*", "*!*@127.0.0.1", "a@127.0.0.1", "a!~ua", "*@*", "?!*", "*!~u?@*", "aa!~uaa@127.0.0.1", "*!~uab@127.0.0.?"] {
+    for m in ["a!*@*", "a!~ua@*", "*!*@127.0.0.1", "a@127.0.0.1", "a!~ua", "*@*", "?!*", "*!~u?@*", "aa!~uaa@127.0.0.1", "*!~uab@127.0.0.?",
+        // longer than the text it matches: every wildcard stands for an empty run
+        "*a*!*~ua*@*127.0.0.1*", "**a**!**@**"] {
         for c in ["ban", "except", "invex", "speak", "oper", "usermask"] {
             for id in IDENTS {
                 cases.push((c, m.to_string(), id));
